@@ -526,6 +526,51 @@ Proof.
   split; [rewrite (tie_var_getAverage N c s Hrel), Hm; reflexivity|].
   split; [rewrite (tie_var_getVariance N c s Hrel), Hm; reflexivity|exact Hd].
 Qed.
+(* the partial C++ operations are never used outside their domain: after any history windowSize_ = W > 0 (so `% windowSize_`
+   is defined) and 0 <= index_ < W, and when the window is full index_ < data_.size() (so `data_[index_]` — read and
+   written only in that case — is inside the vector); the default value / `x mod 0` conventions of StatsSem.v are never
+   exercised *)
+Lemma avg_code_defined prec W ops : (0 < W)%nat -> (W <= 64)%nat ->
+  let mult := o_multiplier N prec in
+  ops_bounded mult ops ->
+  let c := fold_left src_avg_step ops (src_avg_ctor2 N prec (Z.of_nat W)) in
+  avg_windowSize_ c = Z.of_nat W /\ 0 <= avg_index_ c < Z.of_nat W /\
+  vec_size (avg_data_ c) <= Z.of_nat W /\
+  (vec_size (avg_data_ c) = avg_windowSize_ c -> avg_index_ c < vec_size (avg_data_ c)).
+Proof.
+  intros HW0 HW mult Hops c.
+  destruct (avg_code_model prec W ops HW0 HW Hops) as [(Hi & HWs & Hd & _) _]. fold mult c in Hi, HWs, Hd.
+  destruct (o_inv_run W HW0 (map (trunc_op mult) ops)) as (HWm & (R1 & R2 & R3) & _).
+  set (s := fold_left i_step (map (trunc_op mult) ops) (o_init W)) in *.
+  unfold vec_size. rewrite Hi, HWs, Hd, HWm.
+  assert (o_index s < W)%nat.
+  { destruct (Nat.eq_dec (length (o_data s)) W) as [e|e]; [apply R3; exact e|]. rewrite R2 by lia. lia. }
+  repeat split; lia.
+Qed.
+
+Lemma var_code_defined prec W ops : (0 < W)%nat -> (W <= 64)%nat ->
+  let mult := o_multiplier N prec in
+  in_s32 mult -> ops_bounded mult ops ->
+  let c := fold_left src_var_step ops (src_var_ctor2 N prec (Z.of_nat W)) in
+  var_windowSize_ c = Z.of_nat W /\ 0 <= var_index_ c < Z.of_nat W /\
+  vec_size (var_squaredData_ c) = vec_size (var_data_ c) /\ vec_size (var_data_ c) <= Z.of_nat W /\
+  (vec_size (var_data_ c) = var_windowSize_ c -> var_index_ c < vec_size (var_data_ c)).
+Proof.
+  intros HW0 HW mult Hm Hops c.
+  destruct (var_code_model prec W ops HW0 HW Hm Hops) as [(Hi & HWs & Hd & _ & Hq & _) _]. fold mult c in Hi, HWs, Hd, Hq.
+  pose proof (o_inv_run W HW0 (map (trunc_op mult) ops)) as Hinv.
+  set (s := fold_left i_step (map (trunc_op mult) ops) (o_init W)) in *.
+  destruct Hinv as (HWm & (R1 & R2 & R3) & Rq & Wd & Wq & _).
+  assert (Hlen : length (o_sq s) = length (o_data s)).
+  { pose proof (f_equal (@length Z) Wd) as L1. pose proof (f_equal (@length Z) Wq) as L2.
+    rewrite map_length in L2. unfold o_window, o_window_sq in L1, L2. rewrite HWm in L1, L2.
+    rewrite (ring_logical_length W HW0) in L1 by (repeat split; assumption).
+    rewrite (ring_logical_length W HW0) in L2 by exact Rq. lia. }
+  unfold vec_size. rewrite Hi, HWs, Hd, Hq, HWm, Hlen.
+  assert (o_index s < W)%nat.
+  { destruct (Nat.eq_dec (length (o_data s)) W) as [e|e]; [apply R3; exact e|]. rewrite R2 by lia. lia. }
+  repeat split; lia.
+Qed.
 End History.
 
 (* ================================================================== real-number reading, on the code *)
